@@ -2,13 +2,13 @@ import os
 ID = 'C19'
 LEVEL = 'other'
 CONTRACT_MODULES = ['contracts.time_utils', 'contracts.readers']
-CONE = ['csep.utils.time_utils.datetime_to_utc_epoch', 'csep.utils.readers.ingv_horus']
+CONE = ['csep.utils.time_utils.datetime_to_utc_epoch', 'csep.utils.readers.ingv_horus', 'csep.utils.readers.zmap_ascii']
 ORACLE_MODULES = ['rt.oracles_io']
 BOUNDED = os.path.exists(os.path.join(os.path.dirname(__file__), '..', 'rt', 'bounded_C19.py'))
 FLOAT_MODEL = 'E for the time conversions (see C15); concrete executions otherwise'
 TRUSTED = ['the oracles in rt/ compute the expected outcome from the property statement, independently of the code under test', 'pyvc engine, z3 5.1']
-ASSUMPTIONS = ['proved: the INGV HORUS reader over an abstract table of any number of records (numpy.genfromtxt assumed to deliver the written numbers): one event per record in file order, encoded latitude / longitude / depth / magnitude, origin time = midnight of the date + hour, minute and WHOLE seconds, roll-over of seconds = 60, minute = 60, hour = 24 without exception (datetime constructor with symbolic civil fields, day number uninterpreted); the dropped fraction of the second is the open known finding; the datetime -> epoch step is the proved C15 contract', 'the other four formats (CSEP CSV, ZMAP, JMA CSV, NDK: string slicing / strptime / offsets) are decided by the bounded run-time contract only']
-EXPLANATION = 'ingv_horus under contract (loop invariant over the records, in-place roll-over arithmetic on the record view); generated files in the five formats, one event per record, file order, encoded values, UTC conversion incl. seconds = 60 and offsets: run-time contract; the datetime -> epoch step is the proved C15 contract'
+ASSUMPTIONS = ['proved: the ZMAP reader over an abstract numeric table of any number of records (numpy.loadtxt assumed to deliver the written numbers; whole-number date / time columns of valid instants): one event per record in file order with id = row number, latitude / longitude / depth / magnitude from their columns (not swapped) and origin time = the encoded civil instant in ms (UTC); an empty file gives no events', 'proved: the INGV HORUS reader over an abstract table of any number of records (numpy.genfromtxt assumed to deliver the written numbers): one event per record in file order, encoded latitude / longitude / depth / magnitude, origin time = midnight of the date + hour, minute and WHOLE seconds, roll-over of seconds = 60, minute = 60, hour = 24 without exception (datetime constructor with symbolic civil fields, day number uninterpreted); the dropped fraction of the second is the open known finding; the datetime -> epoch step is the proved C15 contract', 'the other three formats (CSEP CSV, ZMAP, JMA CSV, NDK: string slicing / strptime / offsets) are decided by the bounded run-time contract only']
+EXPLANATION = 'zmap_ascii under contract (loop invariant over the rows of the table, nested column-index enum, symbolic datetime constructor); ingv_horus under contract (loop invariant over the records, in-place roll-over arithmetic on the record view); generated files in the five formats, one event per record, file order, encoded values, UTC conversion incl. seconds = 60 and offsets: run-time contract; the datetime -> epoch step is the proved C15 contract'
 TECHNIQUE = 'bounded stand-in: run-time form of the contracts on the real code (small-scope enumeration + directed cases), labelled bounded, nothing counted as proved; deductive part: contracts of the shared callees'
-LEVEL_TEXT = 'other: the HORUS reader and the time conversion are proved; the other formats are decided by the bounded run-time contract only'
+LEVEL_TEXT = 'other: the ZMAP and HORUS readers and the time conversion are proved; the other formats are decided by the bounded run-time contract only'
 LEVEL_NOTE = 'bounded only; oracle independence trusted'
